@@ -160,7 +160,7 @@ pub fn client_case(data: &[u8]) -> Result<(), String> {
     let reply = |sim: &mut Sim, body: Body, auth: Auth| {
         sim.now += 3_000_000;
         let last = (sim.awaiting().len().max(1) - 1) as u8;
-        let _ = sim.step(&Op::Deliver(Reply { target: Target::Outstanding(last), body, extra: 1, auth, fp: fp.clone(), dup: false }));
+        let _ = sim.step(&Op::Deliver(Reply { target: Target::Outstanding(last), body, extra: 1, auth, fp: fp.clone(), dup: false, twist: 0 }));
     };
     send(&mut sim);
     let depth = s1 % 4;
